@@ -49,9 +49,16 @@ type bFunc struct {
 	Ret      rKind
 	RetSeed  int
 	Fail     bool // always returns an error
+	// builtins of the library, called through the same bridge; they cannot record,
+	// so only their arity / conversion verdict and their result are checked
+	Builtin bool
+	Ref     func(args []BV) (BV, int)
 }
 
 func (f *bFunc) sig() string {
+	if f.Builtin {
+		return "builtin " + f.Name
+	}
 	var p []string
 	if f.Ctx {
 		p = append(p, "ctx")
@@ -315,6 +322,9 @@ func (g *bgen) argOfKind(k bKind, d int) *BNode {
 	case bNum:
 		if d < g.depth && s.Intn(6) == 0 {
 			// the result of another call: only functions returning numbers
+			if s.Intn(4) == 0 {
+				return g.call(bridgeBuiltins[s.Intn(3)], d+1, true) // abs / max / min
+			}
 			for try := 0; try < 4; try++ {
 				f := g.w.funcs[g.names[s.Intn(len(g.names))]]
 				if f.Ret <= rFloat64 || f.Ret == rDec {
@@ -593,6 +603,33 @@ func (e *bEval) eval(n *BNode) (BV, int) {
 			e.mustName = f.Name
 			return BV{}, stError
 		}
+		if f.Builtin {
+			conv := make([]BV, 0, len(ec.args))
+			for _, a := range ec.args {
+				conv = append(conv, convertedValue(a.V, a.P))
+			}
+			for _, c := range conv {
+				if hasUnknown(c) {
+					e.why = "builtin " + f.Name + " receives a value whose converted form the statement does not fix"
+					return BV{}, stUnspec
+				}
+			}
+			e.cells["builtin:"+f.Name]++
+			v, st := f.Ref(conv)
+			for _, c := range conv {
+				if anyApprox(c) && v.K == bNum {
+					v.Approx = true // a value that came through a float32 stays approximate
+				}
+			}
+			if st == stError {
+				e.why = "builtin " + f.Name + " returns an error"
+				e.errFn = f.Name
+			}
+			if st == stUnspec {
+				e.why = "builtin " + f.Name + ": result not fixed for these arguments"
+			}
+			return v, st
+		}
 		// the call happens
 		e.exp = append(e.exp, ec)
 		e.n++
@@ -706,6 +743,9 @@ func bridgeOnce(rc *RunCtx, wl, fl *Stream, primary bool) {
 	root := &BNode{Op: bArrLit}
 	for i, cnt := 0, 1+wl.Intn(maxCalls); i < cnt; i++ {
 		f := w.funcs[names[wl.Intn(len(names))]]
+		if wl.Intn(4) == 0 {
+			f = bridgeBuiltins[wl.Intn(len(bridgeBuiltins))]
+		}
 		var e *BNode = g.call(f, 0, wl.Intn(4) != 0)
 		if wl.Intn(6) == 0 { // a call in the unselected branch is not an evaluated call
 			other := g.call(w.funcs[names[wl.Intn(len(names))]], 0, true)
@@ -730,6 +770,7 @@ func bridgeOnce(rc *RunCtx, wl, fl *Stream, primary bool) {
 		}
 	}
 	ctx := context.WithValue(context.Background(), ctxKeyT{}, token)
+	tc := &treeCache{}
 	var shape evHash
 	shape.addString(text)
 	for _, failAt := range faultPositions {
@@ -751,7 +792,7 @@ func bridgeOnce(rc *RunCtx, wl, fl *Stream, primary bool) {
 					pan = p
 				}
 			}()
-			src, perr := formula.ParseSourceCode([]byte(text))
+			src, perr := tc.parse(text, failAt%2 == 1)
 			if perr != nil {
 				panic("bridge formula does not parse: " + perr.Error())
 			}
@@ -895,4 +936,192 @@ func resultClass(root *BNode, ev *bEval) string {
 		return "no-call"
 	}
 	return rKindNames[ev.exp[len(ev.exp)-1].fn.Ret]
+}
+
+// ---------------------------------------------------------------- builtins through the bridge
+
+func anyApprox(v BV) bool {
+	if v.Approx {
+		return true
+	}
+	for _, e := range v.A {
+		if anyApprox(e) {
+			return true
+		}
+	}
+	return false
+}
+
+func hasUnknown(v BV) bool {
+	if v.K == bUnknown {
+		return true
+	}
+	for _, e := range v.A {
+		if hasUnknown(e) {
+			return true
+		}
+	}
+	return false
+}
+
+// convertedValue: the model value a parameter of type p holds after a specified conversion of v.
+func convertedValue(v BV, p pType) BV {
+	switch p.K {
+	case pString:
+		switch v.K {
+		case bStr:
+			return v
+		case bBool:
+			return bvStr(strconv.FormatBool(v.B))
+		}
+		return BV{K: bUnknown} // the rendering of a number is not unique
+	case pInt, pInt8, pInt16, pInt32, pInt64:
+		return bvNum(new(big.Rat).SetInt(truncToward0(v.N)))
+	case pFloat64:
+		f, _ := v.N.Float64()
+		r := new(big.Rat)
+		r.SetFloat64(f)
+		return bvNum(r)
+	case pFloat32:
+		out := v
+		out.Approx = true
+		return out
+	case pSlice:
+		out := BV{K: bArr, A: []BV{}}
+		for _, e := range v.A {
+			out.A = append(out.A, convertedValue(e, *p.Elem))
+		}
+		return out
+	}
+	return v
+}
+
+func sp(k pKind) pType { return pType{K: k} }
+func sliceOf(k pKind) pType {
+	e := pType{K: k}
+	return pType{K: pSlice, Elem: &e}
+}
+
+func asciiOnly(xs ...string) bool {
+	for _, x := range xs {
+		for i := 0; i < len(x); i++ {
+			if x[i] >= 0x80 {
+				return false
+			}
+		}
+	}
+	return true
+}
+
+func ratIntOK(r *big.Rat) (int, bool) {
+	if !r.IsInt() || !r.Num().IsInt64() {
+		return 0, false
+	}
+	v := r.Num().Int64()
+	if v < -1<<30 || v > 1<<30 {
+		return 0, false
+	}
+	return int(v), true
+}
+
+var bridgeBuiltins = []*bFunc{
+	{Name: "abs", Builtin: true, Params: []pType{sp(pDec)}, Ref: func(a []BV) (BV, int) {
+		return bvNum(new(big.Rat).Abs(a[0].N)), stOK
+	}},
+	{Name: "max", Builtin: true, Variadic: true, Params: []pType{sliceOf(pDec)}, Ref: func(a []BV) (BV, int) {
+		if len(a[0].A) == 0 {
+			return BV{}, stError
+		}
+		best := a[0].A[0]
+		for _, x := range a[0].A {
+			if x.N.Cmp(best.N) > 0 {
+				best = x
+			}
+		}
+		return best, stOK
+	}},
+	{Name: "min", Builtin: true, Variadic: true, Params: []pType{sliceOf(pDec)}, Ref: func(a []BV) (BV, int) {
+		if len(a[0].A) == 0 {
+			return BV{}, stError
+		}
+		best := a[0].A[0]
+		for _, x := range a[0].A {
+			if x.N.Cmp(best.N) < 0 {
+				best = x
+			}
+		}
+		return best, stOK
+	}},
+	{Name: "len", Builtin: true, Params: []pType{sp(pString)}, Ref: func(a []BV) (BV, int) { return bvInt(int64(len(a[0].S))), stOK }},
+	{Name: "upper", Builtin: true, Params: []pType{sp(pString)}, Ref: func(a []BV) (BV, int) {
+		if !asciiOnly(a[0].S) {
+			return BV{}, stUnspec
+		}
+		return bvStr(strings.ToUpper(a[0].S)), stOK
+	}},
+	{Name: "lower", Builtin: true, Params: []pType{sp(pString)}, Ref: func(a []BV) (BV, int) {
+		if !asciiOnly(a[0].S) {
+			return BV{}, stUnspec
+		}
+		return bvStr(strings.ToLower(a[0].S)), stOK
+	}},
+	{Name: "left", Builtin: true, Params: []pType{sp(pString), sp(pInt)}, Ref: func(a []BV) (BV, int) {
+		n, ok := ratIntOK(a[1].N)
+		if !ok || n < 0 || !asciiOnly(a[0].S) {
+			return BV{}, stUnspec
+		}
+		if n > len(a[0].S) {
+			n = len(a[0].S)
+		}
+		return bvStr(a[0].S[:n]), stOK
+	}},
+	{Name: "right", Builtin: true, Params: []pType{sp(pString), sp(pInt)}, Ref: func(a []BV) (BV, int) {
+		n, ok := ratIntOK(a[1].N)
+		if !ok || n < 0 || !asciiOnly(a[0].S) {
+			return BV{}, stUnspec
+		}
+		if n > len(a[0].S) {
+			n = len(a[0].S)
+		}
+		return bvStr(a[0].S[len(a[0].S)-n:]), stOK
+	}},
+	{Name: "contains", Builtin: true, Params: []pType{sp(pString), sp(pString)}, Ref: func(a []BV) (BV, int) {
+		return bvBool(strings.Contains(a[0].S, a[1].S)), stOK
+	}},
+	{Name: "find", Builtin: true, Params: []pType{sp(pString), sp(pString)}, Ref: func(a []BV) (BV, int) {
+		if !asciiOnly(a[0].S, a[1].S) {
+			return BV{}, stUnspec
+		}
+		return bvInt(int64(strings.Index(a[0].S, a[1].S))), stOK
+	}},
+	{Name: "replace", Builtin: true, Params: []pType{sp(pString), sp(pString), sp(pString)}, Ref: func(a []BV) (BV, int) {
+		if a[1].S == "" {
+			return BV{}, stUnspec
+		}
+		return bvStr(strings.ReplaceAll(a[0].S, a[1].S, a[2].S)), stOK
+	}},
+	{Name: "join", Builtin: true, Params: []pType{sliceOf(pString), sp(pString)}, Ref: func(a []BV) (BV, int) {
+		var p []string
+		for _, e := range a[0].A {
+			p = append(p, e.S)
+		}
+		return bvStr(strings.Join(p, a[1].S)), stOK
+	}},
+	{Name: "includes", Builtin: true, Params: []pType{sliceOf(pString), sp(pString)}, Ref: func(a []BV) (BV, int) {
+		for _, e := range a[0].A {
+			if e.S == a[1].S {
+				return bvBool(true), stOK
+			}
+		}
+		return bvBool(false), stOK
+	}},
+	{Name: "finite", Builtin: true, Params: []pType{sp(pIface)}, Ref: func(a []BV) (BV, int) {
+		if a[0].K == bNum {
+			return a[0], stOK
+		}
+		return bvInt(0), stOK
+	}},
+	{Name: "year", Builtin: true, Params: []pType{sp(pTime)}, Ref: func(a []BV) (BV, int) { return bvInt(civilOf(a[0].T).Y), stOK }},
+	{Name: "month", Builtin: true, Params: []pType{sp(pTime)}, Ref: func(a []BV) (BV, int) { return bvInt(civilOf(a[0].T).M), stOK }},
+	{Name: "day", Builtin: true, Params: []pType{sp(pTime)}, Ref: func(a []BV) (BV, int) { return bvInt(civilOf(a[0].T).D), stOK }},
 }
